@@ -1358,6 +1358,51 @@ def _copy_env(env: Dict[str, object]) -> Dict[str, object]:
     return {key: (list(value) if isinstance(value, list) else value) for key, value in env.items()}
 
 
+def _bind_helper_global(
+    ctx: Dict[str, object], name: str, inferred_type: Optional[str]
+) -> None:
+    """Keep a variable that a helper binds through ``global`` a sketch-level variable.
+
+    Such a name may have no sketch-level assignment before the helper (or the
+    main loop) first assigns it.  The first assignment inside a helper declares
+    it at file scope; any other scope then assigns to that variable instead of
+    declaring a new local one.
+    """
+
+    helper_globals = ctx.get("helper_globals")
+    if not isinstance(helper_globals, dict) or name not in helper_globals:
+        return
+    globals_list: List[VarDecl] = ctx.setdefault("globals", [])
+    declared_globally = any(
+        isinstance(decl, VarDecl) and decl.name == name for decl in globals_list
+    )
+    if ctx.get("current_function") is not None:
+        if (
+            not declared_globally
+            and inferred_type is not None
+            and not _is_list_type(inferred_type)
+            and name not in ctx.get("_param_names", ())
+        ):
+            cpp_type = _cpp_type(inferred_type)
+            globals_list.append(
+                VarDecl(
+                    name=name,
+                    c_type=cpp_type,
+                    expr=_default_value_for_type(cpp_type),
+                    global_scope=True,
+                )
+            )
+            helper_globals[name] = inferred_type
+            ctx.setdefault("var_types", {})[name] = inferred_type
+        return
+    known_type = helper_globals.get(name)
+    if declared_globally and known_type is not None:
+        declared: set = ctx.setdefault("var_declared", set())
+        if name not in declared:
+            declared.add(name)
+            ctx.setdefault("var_types", {}).setdefault(name, known_type)
+
+
 def _is_open_parameter(
     ctx: Dict[str, object], name: str, existing_type: Optional[str], new_type: str
 ) -> bool:
@@ -2078,6 +2123,7 @@ def _handle_assignment_ast(
             function_param_orders,
             ctx,
         )
+        _bind_helper_global(ctx, target.id, inferred_type)
         if (
             target.id not in declared
             or var_types.get(target.id) is None
@@ -2104,6 +2150,7 @@ def _handle_assignment_ast(
             function_param_orders,
             ctx,
         )
+        _bind_helper_global(ctx, target.id, inferred_type)
         existing_type = var_types.get(target.id)
         is_declared = target.id in declared
         if is_declared and _is_list_type(existing_type or ""):
@@ -2210,6 +2257,8 @@ def _handle_assignment_ast(
             for elt in value.elts[: len(left_names)]
         ]
 
+        for idx, name in enumerate(left_names):
+            _bind_helper_global(ctx, name, inferred_types[idx])
         for idx, name in enumerate(left_names):
             var_types[name] = inferred_types[idx]
 
@@ -2646,6 +2695,7 @@ def _parse_simple_lines(
                 global_name = global_name.strip()
                 if global_name.isidentifier():
                     ctx.setdefault("var_declared", set()).add(global_name)
+                    ctx.setdefault("helper_globals", {}).setdefault(global_name, None)
             i += 1
             continue
 
@@ -4559,6 +4609,8 @@ def _parse_program(src: str) -> Program:
         "globals": [],
         "var_types": {},
         "var_declared": set(),
+        # names a helper binds through ``global`` -> type label once declared at file scope
+        "helper_globals": {},
         "helpers": set(),
         "functions": {},
         "function_param_types": {},
